@@ -207,3 +207,7 @@ Example C16_saturation_nonvacuous :
   gas_limit 1537228672809130 = u64max /\ byte_len u64max = 1537228672809129 /\
   gas_limit 1537228672809129 = 18446744073709548000 /\ gas_limit 0 = 0.
 Proof. vm_compute. repeat split. Qed.
+
+(* assumptions of the theorems above that had no report next to them *)
+Print Assumptions C16_gas_per_byte_pinned.
+Print Assumptions C16_arith_ok_meaning.
